@@ -1,5 +1,6 @@
 import XrsVerif.Core.Wire
 import XrsVerif.Model.Viewshed
+import XrsVerif.Model.ViewshedEvents
 /-!
   driver commands for C05 (the viewshed model evaluated at `Float` on the doubles the real code
   produced; only `< <= + - * /` are used, which are IEEE-exact on both sides)
@@ -128,7 +129,42 @@ def cmdSweep (a : Args) : String := Id.run do
   let (b, g, s) := invAlong (initTree S 0.0 (-1.0)) ops
   return s!"L={String.join (l.map b01)} T={String.join (t.map b01)} bst={b01 b} augle={b01 g} spanok={b01 s}"
 
+/-! ### event geometry (Model/ViewshedEvents.lean), exact rationals -/
+open XrsVerif.ViewshedEvents in
+/-- `vs_events grid=HxW:v,.. vr=R vc=C ew=Q ns=Q`: the sorted event list, the observer-row buffer, the initial fill,
+    the keys and the cell-level operation list of the sweep, all exact.
+    `ev=row:col:ty:y2:x2:e0:e1:e2;..` (sorted) `data=e0:e1:e2;..` (per column) `init=j,..` `keys=HxW:..`
+    `ops=` `*r:c` initial insert, `+r:c` insert, `?r:c` query, `-r:c` delete; `replay=1` iff the active-set discipline holds -/
+def cmdEvents (a : Args) : String := Id.run do
+  let some gs := a.get? "grid" | return "bad-args grid"
+  let some g := parseGrid parseNum gs | return "bad-args grid-syntax"
+  let some vr := a.int? "vr" | return "bad-args vr"
+  let some vc := a.int? "vc" | return "bad-args vc"
+  let some (.fin ew) := a.num? "ew" | return "bad-args ew"
+  let some (.fin ns) := a.num? "ns" | return "bad-args ns"
+  if g.data.any (fun x => match x with | .fin _ => false | _ => true) then return "err:non-finite-terrain"
+  if !(0 ≤ vr ∧ vr < g.h ∧ 0 ≤ vc ∧ vc < g.w) then return "err:observer-outside"
+  let T : Int → Int → Rat := fun i j => match g.getI (.fin 0) i j with | .fin q => q | _ => 0
+  let evs := sortedEvents T g.h g.w vr vc
+  let showEv (e : Event) : String :=
+    s!"{e.row}:{e.col}:{e.ty}:{e.y2}:{e.x2}:{showRat e.e0}:{showRat e.e1}:{showRat e.e2}"
+  let data := dataRow T g.h g.w vr vc
+  let keys := (List.range g.h).map fun (i : Nat) => (List.range g.w).map fun (j : Nat) => key ew ns vr vc i j
+  let ops := sweepOps T g.h g.w vr vc
+  let showOp : COp → String
+    | .ins r c true => s!"*{r}:{c}"
+    | .ins r c false => s!"+{r}:{c}"
+    | .qry r c => s!"?{r}:{c}"
+    | .del r c => s!"-{r}:{c}"
+  return "ev=" ++ ";".intercalate (evs.map showEv) ++
+    " data=" ++ ";".intercalate (data.map fun (x, y, z) => s!"{showRat x}:{showRat y}:{showRat z}") ++
+    " init=" ++ ",".intercalate ((initialCols g.w vc).map toString) ++
+    " keys=" ++ showGrid showRat keys ++
+    " ops=" ++ ";".intercalate (ops.map showOp) ++
+    s!" replay={b01 (replay [] ops)}"
+
 def handlers : List (String × (Args → String)) :=
-  [("vs_check", cmdCheck), ("vs_ins", cmdIns), ("vs_del", cmdDel), ("vs_rot", cmdRot), ("vs_sweep", cmdSweep)]
+  [("vs_check", cmdCheck), ("vs_ins", cmdIns), ("vs_del", cmdDel), ("vs_rot", cmdRot), ("vs_sweep", cmdSweep),
+   ("vs_events", cmdEvents)]
 
 end XrsVerif.Driver.Viewshed
